@@ -14,7 +14,7 @@ From SqfsV Require Import Base.Bytes Gen.Constants C03.Common C03.ListN C03.Meta
   C03.DirModel C03.DirProofs C03.DirRT C03.DirEnd.
 From SqfsV Require Import C01.GenC01 C01.Res C01.InodeModel C01.InodeProofs.
 From SqfsV Require Import Img.TreeModel Img.MetaLemmas Img.InodeLemmas Img.SerDefs Img.SerDir Img.SerProofs
-  Img.Final.
+  Img.Final Img.Domain.
 Import ListNotations.
 Local Open Scope N_scope.
 Ltac Zify.zify_post_hook ::= Z.div_mod_to_equations.
@@ -239,5 +239,71 @@ Section WF.
     rewrite E1, E2.
     split; [apply full_removelast; exact FI|]. split; [apply full_removelast; exact FD|].
     split; assumption.
+  Qed.
+  (* ---- the id table holds 32 bit values and is not empty ---- *)
+  Definition id32 (x : N) : Prop := x < 4294967296.
+
+  Lemma id_to_index_range tbl id tbl' i :
+    Forall id32 tbl -> id32 id -> id_to_index limit tbl id = Ok (tbl', i) -> Forall id32 tbl' /\ 1 <= nlen tbl'.
+  Proof.
+    intros F H E. destruct (id_to_index_spec _ _ _ _ _ E) as (_ & _ & L & _). split; [|lia].
+    unfold id_to_index in E. destruct (find_id id tbl 0).
+    - injection E as <- _. exact F.
+    - destruct (limit <=? nlen tbl); [discriminate|]. injection E as <- _.
+      apply Forall_app. split; [exact F|]. constructor; [exact H|constructor].
+  Qed.
+
+  Lemma ser_node_ids t st ino n st' :
+    Forall id32 (s_ids st) -> id32 (fn_uid n) -> id32 (fn_gid n) ->
+    ser_node compress limit t st ino n = Ok st' -> Forall id32 (s_ids st') /\ 1 <= nlen (s_ids st').
+  Proof.
+    intros F Hu Hg H. unfold ser_node in H.
+    destruct (negb (N.land (fn_mode n) c_S_IFMT =? payload_fmt (fn_payload n))); [discriminate|].
+    match type of H with bind ?kp _ = _ => destruct kp as [[w' kind]| | |] eqn:KP; try discriminate end.
+    cbn [bind] in H.
+    destruct (serialize limit (s_ids st) _) as [[ids' i]| | |] eqn:S; try discriminate. cbn [bind] in H.
+    unfold mw_position in H.
+    destruct (encode i) as [bytes| | |]; try discriminate. cbn [bind] in H.
+    destruct (lift (mw_append compress (s_im st) bytes)) as [im'| | |]; try discriminate. cbn [bind] in H.
+    injection H as <-. cbn [s_ids].
+    unfold serialize in S. cbn [tn_uid tn_gid] in S.
+    destruct (id_to_index limit (s_ids st) (fn_uid n)) as [[t1 ui]| | |] eqn:E1; try discriminate. cbn [bind] in S.
+    destruct (id_to_index limit t1 (fn_gid n)) as [[t2 gi]| | |] eqn:E2; try discriminate. cbn [bind] in S.
+    injection S as <- _.
+    destruct (id_to_index_range _ _ _ _ F Hu E1) as [F1 _].
+    exact (id_to_index_range _ _ _ _ F1 Hg E2).
+  Qed.
+
+  Lemma ser_loop_ids t : forall l st ino st',
+    Forall (fun n => id32 (fn_uid n) /\ id32 (fn_gid n)) l -> Forall id32 (s_ids st) ->
+    ser_loop compress limit t st ino l = Ok st' ->
+    Forall id32 (s_ids st') /\ (l <> [] -> 1 <= nlen (s_ids st')).
+  Proof.
+    induction l as [|n l IH]; intros st ino st' FN F H.
+    - cbn in H. injection H as <-. split; [exact F|]. intro X. contradiction.
+    - cbn [ser_loop] in H.
+      destruct (ser_node compress limit t st ino n) as [st1| | |] eqn:SN; try discriminate. cbn [bind] in H.
+      pose proof (Forall_inv FN) as [Hu Hg].
+      destruct (ser_node_ids t st ino n st1 F Hu Hg SN) as [F1 N1].
+      destruct (IH st1 (ino + 1) st' (Forall_inv_tail FN) F1 H) as [F2 N2].
+      split; [exact F2|]. intros _.
+      destruct l as [|n2 l2]; [cbn in H; injection H as <-; exact N1|]. apply N2. discriminate.
+  Qed.
+
+  Theorem ids_range bs t img :
+    representable bs t = true -> serialize_fstree compress limit t = Ok img ->
+    Forall id32 (si_ids img) /\ 1 <= nlen (si_ids img).
+  Proof.
+    intros Hrep H. unfold serialize_fstree in H.
+    destruct (ser_loop compress limit t st_init 1 t) as [st| | |] eqn:L; try discriminate. cbn [bind] in H.
+    destruct (lift (mw_flush compress (s_im st))) as [im1| | |]; try discriminate. cbn [bind] in H.
+    destruct (lift (mw_flush compress (dw_dm (s_dw st)))) as [dm1| | |]; try discriminate. cbn [bind] in H.
+    injection H as <-. cbn [si_ids].
+    destruct (repr_facts bs t Hrep) as (_ & Hn1 & _ & _ & FO).
+    assert (FN : Forall (fun n => id32 (fn_uid n) /\ id32 (fn_gid n)) t).
+    { apply Forall_forall. intros n Hin. destruct (In_nth_error _ _ Hin) as [j Hj].
+      destruct (fnode_okb_facts _ _ _ _ (FO j n Hj)) as [_ U G _ _ _ _]. split; assumption. }
+    destruct (ser_loop_ids t t st_init 1 st FN ltac:(constructor) L) as [F1 N1].
+    split; [exact F1|]. apply N1. intro E. rewrite E in Hn1. cbn in Hn1. lia.
   Qed.
 End WF.
